@@ -39,6 +39,7 @@ INTERNAL = '_V'                 # a variable whose name starts with '_': left ou
 ATTR_NAMES = ('lags', 'check', 'names', 'values', 'solve', 'copy', 'aliases', 'ALIASES', 'span')
 # attributes / methods every aliased model has: an alias named like one must be refused by the constructor (fix 4e03fd0)
 ALIAS_NAMES = ['A', 'B', 'C', 'D', 'y', 'Ax']
+CTOR_KEYWORDS = ('default_value',)   # constructor keywords that are NOT kept as attributes (an alias of that name passes the clash check)
 SPANS = [[10, 11, 12], [0, 1, 2, 3], [5], [2000, 2001, 2002, 2003, 2004], [3, 1, 2]]
 S = c09.S
 
@@ -210,6 +211,8 @@ def rand_case(rng, max_ops):
     if rng.random() < 0.15:
         names.insert(rng.randint(0, len(names)), INTERNAL)
     aliases = rand_aliases(rng, names)
+    if aliases and not cyclic(aliases) and rng.random() < 0.02:
+        aliases.append([rng.choice(CTOR_KEYWORDS), rng.choice(names)])      # an alias named like a constructor keyword (kept finding)
     if aliases and not cyclic(aliases) and rng.random() < 0.04:
         # (not `span` for a linker: there span is a constructor KEYWORD, which AliasMixin would hand on under the variable's name)
         aliases.append([rng.choice([a for a in ATTR_NAMES if not (kind == 'linker' and a == 'span')]), rng.choice(names)])
@@ -242,6 +245,8 @@ def rand_case(rng, max_ops):
         op = c09.rand_op(rng, span, kind, rows, pool=pool, book=False)
         if op[0] == 'addvar':
             rows += 1
+        if op[0] == 'addattr' and aliases and not cyclic(aliases) and rng.random() < 0.25:
+            op[1] = rng.choice(aliases)[0]          # add_attribute(<alias name>): the second door of the kept finding
         case['ops'].append(through_aliases(rng, aliases, op))
     # reads through aliases on the final state
     reads = []
@@ -330,6 +335,15 @@ def fixed_cases():
     # the door the constructor cannot close (kept finding): a variable added later under an alias name
     mk(aliases=[['A', 'X']], ops=[['addvar', 'A', li(1, 2, 3), None], ['setattr', 'A', li(4, 5, 6)]], reads=[['g', ['n', 'A']]])
     mk(aliases=[['A', 'X']], ops=[['addvar', 'A', li(1, 2, 3), None], ['setattr', 'values', S(['i', 5])]])
+    # ... and through add_attribute (also under strict=True): an entry stored under the alias name
+    for st in (False, True):
+        mk(names=['X', 'Y'], strict=st, aliases=[['A', 'X']], ivs=[['X', li(1, 2, 3)]],
+           ops=[['addattr', 'A', S(['i', 99])], ['setattr', 'A', S(['i', 5])], ['getattr', 'A']], reads=[['a', 'A'], ['g', ['n', 'A']]])
+    mk(aliases=[['A', 'B'], ['B', 'X']], ops=[['addattr', 'B', S(['i', 1])], ['getattr', 'A'], ['getattr', 'B']], reads=[['a', 'B']])
+    # an alias named like a constructor keyword that is no attribute: M(span, default_value=5) silently becomes X=5 (kept finding)
+    mk(names=['X', 'Y'], aliases=[['default_value', 'X']], default=S(['i', 5]))
+    mk(names=['X', 'Y'], aliases=[['A', 'Y'], ['default_value', 'A']], default=S(['f', 3]), ops=[['setattr', 'A', li(1, 2, 3)]])
+    mk(kind='linker', strict=False, names=['X', 'Y'], aliases=[['default_value', 'X']], default=S(['i', 5]))
     mk(aliases=[['A', 'X'], ['B', 'X']], preferred=['A', 'B'])                                # ambiguous preferences
     mk(aliases=[['A', 'X']], preferred=['A', 'X'])
     mk(aliases=[['A', 'B'], ['B', 'X']], preferred=['X', 'A'])
@@ -704,13 +718,13 @@ def explain(case, obs):
 
 
 def shadowed(case, obs=None):
-    """Alias names under which a variable was added AFTER construction (add_variable takes the name literally and does not know
-    the aliases): the class of the kept finding add_variable|alias-name-accepted. With the observation: only add_variable calls that
+    """Alias names under which a variable or an attribute was added AFTER construction (add_variable / add_attribute take the name
+    literally and do not know the aliases): the class of the kept finding add_variable-or-add_attribute|alias-name-accepted. With the observation: only add_variable calls that
     were ACCEPTED count. (Alias names that clash at construction are refused by the constructor since fix 4e03fd0.)"""
     added = set()
     steps = (obs or {}).get('steps')
     for i, op in enumerate(case['ops']):
-        if op[0] == 'addvar' and (steps is None or (i < len(steps) and steps[i]['out'] == 'ok')):
+        if op[0] in ('addvar', 'addattr') and (steps is None or (i < len(steps) and steps[i]['out'] == 'ok')):
             added.add(op[1])
     return sorted(k for k, v in case['aliases'] if k != v and k in added)
 
@@ -722,6 +736,8 @@ def guard(case, obs):
     if shadowed(case, obs) and (case.get('rx') is not None
                            or any((op[0] in ('setattr', 'addattr') and op[1] == 'values') or op[0] in cc.CROSS_OPS for op in case['ops'])):
         return True          # (reindex() too walks `index` through the alias-resolving __getitem__)
+    if any(chain_end(case['aliases'], k) != k and k in CTOR_KEYWORDS for k, _ in case['aliases']) and not cyclic(case['aliases']):
+        return True          # the model's constructor takes default_value as a parameter, not as a renamable keyword (kept finding)
     return c09.guard(case, obs)
 
 
@@ -733,7 +749,7 @@ def _ambiguous(case):
 
 def oracle(case, obs):
     """The failures of _oracle, with exactly the class of the kept finding folded into its signature: a failure is attributed to
-    `add_variable|alias-name-accepted` only if a variable was added under an alias name and the failing step goes through that name
+    `add_variable-or-add_attribute|alias-name-accepted` only if a variable / attribute was added under an alias name and the failing step goes through that name
     (or its variable) or is an operation that walks ALL variables through self[...] (values, nbytes, dir, copies, reindex, export,
     solve). Everything else stays what it is."""
     al = case['aliases']
@@ -749,7 +765,7 @@ def oracle(case, obs):
         else:
             keep.append(f)
     if folded:
-        keep.append({'sig': 'C18|add_variable|alias-name-accepted', 'what': 'add_variable(%s) was accepted although that is an alias (of %s): %s' % (
+        keep.append({'sig': 'C18|add_variable-or-add_attribute|alias-name-accepted', 'what': 'add_variable / add_attribute(%s) was accepted although that is an alias (of %s): %s' % (
             sorted(sh), sorted(chain_end(al, k) for k in sh), '; '.join(f['what'] for f in folded)[:400])})
     return keep
 
@@ -789,6 +805,16 @@ def _oracle(case, obs):
             bad('__init__|clashing-alias-accepted', 'ALIASES %s: %s are also names of variables / attributes of the object, the constructor gave %s' % (
                 dict(al), clash, obs['init']))
         return fails
+    # ---- an alias named like a constructor keyword that the object does not keep as an attribute (default_value): the keyword is
+    #      renamed on its way to the constructor - M(span, default_value=5) becomes M(span, X=5). Kept finding (same family); the
+    #      object was not built from the arguments its twin got, so nothing further is judged
+    kwal = sorted(k for k, _ in al if chain_end(al, k) != k and k in CTOR_KEYWORDS)
+    if kwal:
+        if obs['init'] == 'ok':
+            bad('__init__|alias-named-like-constructor-keyword', 'ALIASES %s: %s is a keyword of the constructor; it was accepted and the keyword '
+                'went to the variable %s instead%s' % (dict(al), kwal, [chain_end(al, k) for k in kwal],
+                                                       (': ' + obs['twin_diff0'][:160]) if obs.get('twin_diff0') else ''))
+        return fails
     ends = [chain_end(al, k) for k, _ in case['ivs']]
     if len(set(ends)) != len(ends):
         # two keywords for one variable: no call on the twin is "the same operation"; only the storage claim is judged
@@ -806,6 +832,10 @@ def _oracle(case, obs):
         bad('__init__|differs-from-twin', 'after construction: ' + obs['twin_diff0'], touch=set(k for k, _ in case['ivs']) | {chain_end(al, k) for k, _ in case['ivs']})
     # ---- every write through an alias = the same write on the underlying variable
     for i, (op, stp) in enumerate(zip(case['ops'], obs['steps'])):
+        if op[0] in ('addvar', 'addattr') and stp['out'] == 'ok' and chain_end(al, op[1]) != op[1]:
+            # storage under an alias name: reads and writes through that name go different ways from here on
+            bad('%s|alias-name-accepted' % op[0], "op %d: %s(%r, ...) was accepted although %r is an alias of %r" % (
+                i, {'addvar': 'add_variable', 'addattr': 'add_attribute'}[op[0]], op[1], op[1], chain_end(al, op[1])), touch={op[1]})
         if stp['out'] != stp['twin_out']:
             bad('%s|differs-from-twin' % op[0], 'op %d %s through %s gave %s, on the twin %s' % (i, op[0], c09._target_names(op), stp['out'], stp['twin_out']), touch=('walk' if ((op[0] in ('setattr', 'addattr') and op[1] == 'values') or op[0] in ('fork', 'sib', 'become')) else names_of_op(op)))
             break
@@ -814,7 +844,7 @@ def _oracle(case, obs):
             break
         if op[0] in cc.CROSS_OPS:
             ia, it = stp.get('aux', {}), stp.get('twin_aux', {})
-            if op[0] == 'getattr' and (op[1] in stp['st']['adict'] or chain_end(al, op[1]) in stp['st']['adict']):
+            if op[0] == 'getattr' and chain_end(al, op[1]) in stp['st']['adict']:
                 ia = it = {}                # a plain attribute of that name was made by the history itself: not a read of a variable
             if ia != it:
                 bad('cross-instance|differs-from-twin', 'op %d %s: %s, on the twin %s' % (i, json.dumps(op)[:100], str(ia)[:100], str(it)[:100]), touch=(names_of_op(op) if op[0] == 'getattr' else 'walk'))
@@ -847,7 +877,7 @@ def _oracle(case, obs):
     # ---- reads
     final = obs['steps'][-1]['st'] if obs['steps'] else obs['st0']
     for r, (a, t) in zip(case.get('reads', []), obs.get('reads', [])):
-        if r[0] == 'a' and (chain_end(al, r[1]) in final['adict'] or r[1] in final['adict']):
+        if r[0] == 'a' and chain_end(al, r[1]) in final['adict']:
             continue            # a plain attribute of that name was made by the history itself: not a read of a variable
         if a != t:
             bad('read|differs-from-twin', 'read %s gave %s, the twin %s' % (r, str(a)[:80], str(t)[:80]), touch={r[1] if r[0] == 'a' else (r[1][1] if len(r[1]) > 1 else '')} | {chain_end(al, r[1] if r[0] == 'a' else (r[1][1] if len(r[1]) > 1 else ''))})
